@@ -10,6 +10,7 @@ import UtapModel.Model.Sexp
 import UtapModel.Model.PrintModel
 import UtapModel.Model.StrLit
 import UtapModel.Model.Query
+import UtapModel.Model.QuerySmc
 open UtapModel UtapModel.Pratt UtapModel.ExprTable UtapModel.ExprGrammar UtapModel.PrintModel
 
 def tokOfName (n : String) : Nat := tokId n
@@ -174,7 +175,15 @@ def stepLine (line : String) : List String :=
     | none => ["REJECT lex"]
     | some ts =>
       match UtapModel.Query.parseQ ts with
-      | none => ["REJECT parse"]
+      | none =>
+        -- the statistical forms (Model/QuerySmc.lean)
+        match UtapModel.QuerySmc.parseS ts with
+        | none => ["REJECT parse"]
+        | some q =>
+          let toks := UtapModel.QuerySmc.sprint q
+          let lexeq := match lexQuery real with | some ts' => decide (ts' = toks) | none => false
+          let re := decide (UtapModel.QuerySmc.parseS toks = some q)
+          ["\t".intercalate [(UtapModel.QuerySmc.sToK q).str, toString q.wf, UtapModel.Query.toksTextQ toks, toString lexeq, toString re]]
       | some q =>
         let toks := UtapModel.Query.qprint q
         let lexeq := match lexQuery real with | some ts' => decide (ts' = toks) | none => false
